@@ -260,7 +260,7 @@ theorem graph_disabled_completes_only_without_code (fuel pf : Nat) (cfg : Config
           have hgrow2 := gen_grows fuel pf fs true t.cls stack t st' hf'
           rw [hg] at hclean2 hgrow2
           have hclosure := gen_closure fuel pf fs true t.cls stack t st' s2 hf' htf hg
-          obtain ⟨f, hfl, hitems⟩ := htf
+          obtain ⟨f, hfl, hitems, _⟩ := htf
           rw [hname] at hfl
           intro b hb
           cases hb with
@@ -271,7 +271,7 @@ theorem graph_disabled_completes_only_without_code (fuel pf : Nat) (cfg : Config
               cases hfl'
               rw [← hitems] at hmem
               obtain ⟨abs, t2, hlk⟩ := hclosure n p dyn hmem b hnb
-              obtain ⟨hn2, f2, hf2, hi2⟩ := hgrow2.1 _ _ hlk
+              obtain ⟨hn2, f2, hf2, hi2, _⟩ := hgrow2.1 _ _ hlk
               have hn2' : t2.name = b := hn2
               refine ⟨f2, by rw [← hn2']; exact hf2, ?_⟩
               rw [← hi2]
@@ -291,24 +291,24 @@ theorem graph_disabled_reachable_code_fails (fuel pf : Nat) (cfg : Config) (root
   cases hn
 
 /-- **… constructing or loading such a template raises a template syntax error**: over a
-    well-formed include graph (every include names an existing file; acyclic — a rank decreases
-    along includes), with fuel beyond the rank of the root, a disabled run over a tree with a code
+    well-formed include graph (every include names an existing file written in the language the
+    include asks for; acyclic — a rank decreases along includes), for a root whose file exists and
+    fits its class, with fuel beyond the rank of the root: a disabled run over a tree with a code
     block anywhere in it ends in `TemplateSyntaxError` — not in "not found", not in a recursion
-    error, not in a configuration error — on every case the model covers. -/
+    error, not in a configuration error, and never outside the model (`unmodelled`). -/
 theorem graph_disabled_raises_syntax_error (fuel pf : Nat) (cfg : Config) (root : Root) (fs : FS)
     (rn : Nat) (hist : List Nat) (rank : Nat → Nat) (hd : root.disabled cfg) (hwf : WellFormed fs rank)
-    (hroot : (fs.lookup rn).isSome = true) (hfuel : rank rn < fuel) (hpf : rank rn < pf)
-    (b : Nat) (f : File) (hb : Reaches fs rn b) (hf : fs.lookup b = some f) (hcode : noCode f.items = false)
-    (hmod : (run fuel pf cfg root fs rn hist).err ≠ some .unmodelled) :
+    (hroot : RootOk root fs rn) (hfuel : rank rn < fuel) (hpf : rank rn < pf)
+    (b : Nat) (f : File) (hb : Reaches fs rn b) (hf : fs.lookup b = some f) (hcode : noCode f.items = false) :
     ∃ n, (run fuel pf cfg root fs rn hist).err = some (.syntax n) := by
   have hne := graph_disabled_reachable_code_fails fuel pf cfg root fs rn hist hd b f hb hf hcode
   cases he : (run fuel pf cfg root fs rn hist).err with
   | none => exact absurd he hne
   | some e =>
-      have hk := run_err_kind fuel pf cfg root fs rn hist rank hd hwf hroot hfuel hpf e he
+      have hk := run_err_syntax fuel pf cfg root fs rn hist rank hd hwf hroot hfuel hpf e he
       cases e with
       | «syntax» n => exact ⟨n, rfl⟩
-      | unmodelled => exact absurd he hmod
+      | unmodelled => cases hk
       | notFound n => cases hk
       | diverge => cases hk
       | config => cases hk
@@ -427,26 +427,38 @@ example : FsNoCode [(0, ⟨.markup, [.text 1, .incl 1 .text false]⟩), (1, ⟨.
 def exFs3 : FS :=
   [(0, ⟨.markup, [.text 1, .incl 1 .text false, .text 3]⟩), (1, ⟨.newtext, [.code 7 2, .expr 2]⟩)]
 
+/-- the files of `exFs3`, by name -/
+theorem exFs3_lookup (a : Nat) (f : File) (h : exFs3.lookup a = some f) :
+    (a = 0 ∧ f = ⟨.markup, [.text 1, .incl 1 .text false, .text 3]⟩) ∨ (a = 1 ∧ f = ⟨.newtext, [.code 7 2, .expr 2]⟩) := by
+  simp only [exFs3, List.lookup] at h
+  by_cases h0 : a = 0
+  · subst h0; simp at h; exact Or.inl ⟨rfl, h.symm⟩
+  · by_cases h1 : a = 1
+    · subst h1; simp at h; exact Or.inr ⟨rfl, h.symm⟩
+    · have e0 : (a == 0) = false := by simpa using h0
+      have e1 : (a == 1) = false := by simpa using h1
+      simp [e0, e1] at h
+
 example : WellFormed exFs3 (fun n => 1 - n) := by
   constructor
   · intro a f n p dyn hl hm
-    simp only [exFs3, List.lookup] at hl
-    by_cases h0 : a = 0
-    · subst h0; simp at hl; subst hl; simp at hm; obtain ⟨rfl, _, _⟩ := hm; rfl
-    · by_cases h1 : a = 1
-      · subst h1; simp at hl; subst hl; simp at hm
-      · have e0 : (a == 0) = false := by simpa using h0
-        have e1 : (a == 1) = false := by simpa using h1
-        simp [e0, e1] at hl
+    rcases exFs3_lookup a f hl with ⟨rfl, rfl⟩ | ⟨rfl, rfl⟩
+    · simp at hm; obtain ⟨rfl, _, _⟩ := hm; rfl
+    · simp at hm
   · intro a b ⟨f, p, dyn, hl, hm⟩
-    simp only [exFs3, List.lookup] at hl
-    by_cases h0 : a = 0
-    · subst h0; simp at hl; subst hl; simp at hm; obtain ⟨rfl, _, _⟩ := hm; decide
-    · by_cases h1 : a = 1
-      · subst h1; simp at hl; subst hl; simp at hm
-      · have e0 : (a == 0) = false := by simpa using h0
-        have e1 : (a == 1) = false := by simpa using h1
-        simp [e0, e1] at hl
+    rcases exFs3_lookup a f hl with ⟨rfl, rfl⟩ | ⟨rfl, rfl⟩
+    · simp at hm; obtain ⟨rfl, _, _⟩ := hm; decide
+    · simp at hm
+  · intro a f n p dyn g hl hm hg
+    rcases exFs3_lookup a f hl with ⟨rfl, rfl⟩ | ⟨rfl, rfl⟩
+    · simp at hm; obtain ⟨rfl, rfl, _⟩ := hm
+      rcases exFs3_lookup 1 g hg with ⟨h, _⟩ | ⟨_, rfl⟩
+      · cases h
+      · rfl
+    · simp at hm
+
+example : RootOk (.pluginFile .markup) exFs3 0 :=
+  ⟨⟨_, rfl, rfl⟩, by intro c s own h; cases h⟩
 
 example : (run 2 2 ⟨.dflt, .dflt, .str ['O', 'f', 'F'], false⟩ (.pluginFile .markup) exFs3 0 []).err
     = some (.syntax 1) := by decide
